@@ -72,6 +72,7 @@ def run(ctx, chk):
                                   "payload pointer is only the source operand of a bounded copy")
     chk.not_decided += ["acceptance IF AND ONLY IF well-formed (language of a push-down machine driven by runtime counts)",
                         "'every definite container completely filled' and value fidelity beyond the per-head tables (C10/C15)"]
+    chk.rule("C02.status", "per initial byte: the status the decoder returns is the one the reference assigns")
     # 1. dispatch
     n = DR.per_byte(chk, "C02", prog, eff, {"action", "payload", "read", "claim", "error-arm", "status"})
     chk.floor("C02.action", "per-byte obligations", n, 500)
